@@ -78,7 +78,7 @@ def check_class(chk, ex, cls, found):
                     if tx.sort() != ty.sort():
                         tx = z3.ToReal(tx) if z3.is_int(tx) else tx
                         ty = z3.ToReal(ty) if z3.is_int(ty) else ty
-                    chk.prove("%s:param:%s" % (tag, pn), lo.state.pc, tx == ty, tag="G")
+                    chk.prove("%s:param:%s" % (tag, pn), lo.state.pc, tx == ty, tag="G", found=found)
                 # every table is copied from the member save wrote it to
                 copies = [(e[1], e[2]) for e in le if e[0] == "copyto"]
                 for fld, mem in TABLES[cls].items():
@@ -90,11 +90,11 @@ def check_class(chk, ex, cls, found):
                     if isinstance(dst, Arr) and isinstance(src, Arr) and isinstance(orig, Arr):
                         _wrappers.row(chk, "%s:table:%s:rank" % (tag, fld), len(dst.shape) == len(src.shape) == len(orig.shape), None, found)
                         for i, (u, v) in enumerate(zip(dst.shape, src.shape)):
-                            chk.prove("%s:table:%s:shape%d" % (tag, fld, i), lo.state.pc, u == v, tag="G")
+                            chk.prove("%s:table:%s:shape%d" % (tag, fld, i), lo.state.pc, u == v, tag="G", found=found)
                         if src is not orig:
                             idx = [z3.Int("si%d" % i) for i in range(len(orig.shape))]
                             rng = [z3.And(i >= 0, i < n) for i, n in zip(idx, orig.shape)]
-                            chk.prove("%s:table:%s:saved-values==table-values" % (tag, fld), lo.state.pc + rng + [z3.And(orig.content(idx) >= 0, orig.content(idx) < 2 ** (8 * orig.itemsize()))], src.content(idx) == orig.content(idx), tag="G")
+                            chk.prove("%s:table:%s:saved-values==table-values" % (tag, fld), lo.state.pc + rng + [z3.And(orig.content(idx) >= 0, orig.content(idx) < 2 ** (8 * orig.itemsize()))], src.content(idx) == orig.content(idx), tag="G", found=found)
                         okw = src.dtype == dst.dtype or (src.dtype in X.DT and dst.dtype in X.DT and not X.DT[src.dtype][1] and not X.DT[dst.dtype][1] and X.DT[src.dtype][0] <= X.DT[dst.dtype][0])
                         _wrappers.row(chk, "%s:table:%s:copy-into-the-new-table-is-lossless" % (tag, fld), okw, "%s -> %s" % (src.dtype, dst.dtype), found)
                 if cls == "HeavyHitters":
